@@ -216,24 +216,207 @@ def fixed_len(n):
         return f * n.a[1] if f is not None and n.a[1] == n.a[2] else None
 
 
-def fragile_shape(n):
-    """pattern shapes on which recorded, unrepaired findings (known_findings.txt) can manifest; they are not compared with
-    the oracle: a quantifier over a body that can match without consuming input (progress guard, depth bound), and a
-    quantifier with minimum 0 over a variable-length body (the per-matcher memo of zero-length matches suppresses the
-    empty alternative when the same repeat is reached again at the same position)"""
-    for x in walk(n):
+def n_paths(n, cap=99):
+    """an upper bound on the number of results an iterator for n can yield from one position (cap = "many")"""
+    k = n.k
+    if k in ('lit', 'dot', 'cls', 'bol', 'eol', 'bref'):
+        return 1
+    if k == 'grp':
+        return n_paths(n.a[0], cap)
+    if k == 'alt':
+        return min(cap, sum(n_paths(x, cap) for x in n.a[0]))
+    if k == 'seq':
+        t = 1
+        for x in n.a[0]:
+            t = min(cap, t * n_paths(x, cap))
+        return t
+    if k == 'rep':
+        b, lo, hi, _lazy = n.a
+        if hi is None:
+            return cap
+        pb, t = n_paths(b, cap), 0
+        for j in range(lo, hi + 1):
+            t = min(cap, t + min(cap, pb ** j))
+        return t
+    return cap
+
+
+def head_reps(n):
+    """the quantified terms that every match attempt reaches at most once, at the position where the attempt starts: the
+    first term of the pattern, through groups and alternatives (not inside another quantified term)"""
+    out = set()
+
+    def visit(x):
         if x.k == 'rep':
-            if nullable(x.a[0]):
-                return True
-            if x.a[1] == 0 and fixed_len(x.a[0]) is None:
-                return True
+            out.add(id(x))
+        elif x.k == 'grp':
+            visit(x.a[0])
+        elif x.k == 'alt':
+            for y in x.a[0]:
+                visit(y)
+        elif x.k == 'seq' and x.a[0]:
+            visit(x.a[0][0])
+    visit(n)
+    return out
+
+
+def fragile_shape(n):
+    """pattern shapes on which the recorded, unrepaired findings of known_findings.txt can manifest; they are not compared
+    with the oracle. Each condition is the precondition of one mechanism:
+    (1) the progress guard ends a repeat's results after one position was produced five times in a row: a quantifier over
+        a body that can match without consuming input, whose iterator can yield five results or more;
+    (2) the depth bound counts repetitions that consume nothing: a body that matches the empty string only at an anchor
+        (the compiler lowers the minimum to 0 for bodies that match it anywhere), repeated twice or more;
+    (3) the per-matcher memo of zero-length matches suppresses the zero-repetition alternative when the same greedy
+        repeat with minimum 0 over a variable-length body is reached again at the same position: every such repeat that is
+        not the head of the pattern (the head is reached once per attempt, at the attempt's own start)."""
+    heads = head_reps(n)
+    for x in walk(n):
+        if x.k != 'rep':
+            continue
+        b, lo, hi, lazy = x.a
+        nb = nullable(b)
+        if nb and n_paths(x) >= 5:
+            return True
+        if nb and (has(b, 'bol') or has(b, 'eol')) and (hi is None or hi >= 2):
+            return True
+        if not lazy and (lo == 0 or nb) and (fixed_len(b) is None or nb) and id(x) not in heads:
+            return True
     return False
+
+
+def brefs_into_reps(n):
+    """a back-reference to a group that stands under a quantifier"""
+    under = set()
+    k = 0
+    def visit(x, inrep):
+        nonlocal k
+        if x.k == 'grp':
+            if x.a[1]:
+                k += 1
+                if inrep:
+                    under.add(k)
+            visit(x.a[0], inrep)
+        elif x.k in ('alt', 'seq'):
+            for y in x.a[0]:
+                visit(y, inrep)
+        elif x.k == 'rep':
+            visit(x.a[0], True)
+    visit(n, False)
+    return any(x.k == 'bref' and x.a[0] in under for x in walk(n))
 
 
 def quantified_caps(n):
     """a capturing group stands under a quantifier (which repetition's text it holds after backtracking is the recorded
     finding C19/C03)"""
     return any(x.k == 'rep' and ncaps(x.a[0]) > 0 for x in walk(n))
+
+
+class RefMatch:
+    """reference matcher over the pattern AST: ordered choice, greedy / reluctant repetition, depth first - the semantics
+    the properties state. It is used for one question only: did the *first* path the search tries succeed, with no
+    term asked for a second result after it had delivered one? On such a match nothing is ever given back, so what a
+    quantified group holds cannot depend on how abandoned attempts are undone (recorded findings C19/C03), and the group
+    texts can be compared with the oracle."""
+
+    def __init__(self, node, flags, inp):
+        self.inp, self.flags, self.resumed, self.second = inp, flags, 0, 0
+        self.pf = py_flags(flags)
+        self.ml = 'm' in flags
+        self.node = node
+        self._one = {}
+
+    def one(self, x):
+        r = self._one.get(id(x))
+        if r is None:
+            r = self._one[id(x)] = re.compile(to_p(x, self.ml), self.pf)
+        return r
+
+    def track(self, g):
+        produced = False
+        while True:
+            if produced:
+                self.resumed += 1      # the consumer came back for another result
+            try:
+                v = next(g)
+            except StopIteration:
+                return
+            if produced:
+                self.second += 1       # ... and got one: an alternative was taken, or a repetition given back
+            produced = True
+            yield v
+
+    def m(self, x, pos, caps):
+        return self.track(self._m(x, pos, caps))
+
+    def _m(self, x, pos, caps):
+        k = x.k
+        if k in ('lit', 'dot', 'cls'):
+            mm = self.one(x).match(self.inp, pos)
+            if mm is not None and mm.end() == pos + 1:
+                yield pos + 1, caps
+        elif k in ('bol', 'eol'):
+            if self.one(x).match(self.inp, pos) is not None:
+                yield pos, caps
+        elif k == 'bref':
+            t = caps.get(x.a[0])
+            if t is None:
+                yield pos, caps
+            else:
+                mm = re.compile(re.escape(t), self.pf).match(self.inp, pos)
+                if mm is not None:
+                    yield mm.end(), caps
+        elif k == 'grp':
+            for (p, c) in self.m(x.a[0], pos, caps):
+                if x.a[1]:
+                    c = dict(c)
+                    c[x.nr] = self.inp[pos:p]
+                yield p, c
+        elif k == 'alt':
+            for br in x.a[0]:
+                yield from self.m(br, pos, caps)
+        elif k == 'seq':
+            yield from self.seq(x.a[0], 0, pos, caps)
+        elif k == 'rep':
+            yield from self.rep(x, pos, caps, 0)
+
+    def seq(self, items, i, pos, caps):
+        if i == len(items):
+            yield pos, caps
+            return
+        for (p, c) in self.m(items[i], pos, caps):
+            yield from self.seq(items, i + 1, p, c)
+
+    def rep(self, x, pos, caps, count):
+        b, lo, hi, lazy = x.a
+        more = hi is None or count < hi
+        if lazy and count >= lo:
+            yield pos, caps
+        if more:
+            for (p, c) in self.m(b, pos, caps):
+                if p == pos and count >= lo:
+                    continue           # a repetition that consumes nothing adds nothing once the minimum is reached
+                yield from self.rep(x, p, c, count + 1)
+        if not lazy and count >= lo:
+            yield pos, caps
+
+    def first_path(self, start):
+        """(end, captures, strict) if the first result from `start` was reached without any term delivering a second
+        result (no alternative taken after a first choice had matched, no repetition given back), else None; strict: no
+        term was even asked for one (nothing that had matched was abandoned)"""
+        self.resumed = self.second = 0
+        for (p, c) in self.m(self.node, start, {}):
+            return (p, c, self.resumed == 0) if self.second == 0 else None
+        return None
+
+
+def number_groups(n):
+    """capturing groups are numbered by the order of their opening parentheses"""
+    k = 0
+    for x in walk(n):
+        if x.k == 'grp' and x.a[1]:
+            k += 1
+            x.nr = k
 
 
 def ncaps(n):
@@ -438,6 +621,40 @@ def families():
     # a pattern that starts with a repeat, searched repeatedly along the input (every later search starts mid-input)
     for n in (rep(b, 1, None, False), rep(cls(['b', 'c']), 1, None, False), seq([rep(b, 1, None, False), a]), seq([grp(rep(b, 2, 2, False), True), a])):
         out.append((n, '', ['a', 'b'], 6))
+    # an optional group at the head of the pattern whose body holds an anchor and optional terms only: the group must stay
+    # optional (the static "matches the empty string anywhere / at the start / at the end" answers differ)
+    for body in ([bol, rep(a, 0, 1, False)], [rep(a, 0, 1, False), eol], [bol, rep(a, 0, 1, False), eol], [bol, rep(cls(['a', 'b']), 0, 1, False)]):
+        for cap in (False, True):
+            for Y in (b, c, seq([b, c])):
+                for fl in ('', 'm'):
+                    out.append((seq([rep(grp(seq(list(body)), cap), 0, 1, False), Y]), fl, ['a', 'b', 'c', '\n'] if fl else ['a', 'b', 'c'], 4))
+    # a counted repetition of a body with several ways / lengths to match, before a term only some of them leave room for;
+    # also after ^ and inside a group (every repetition must be able to take any of its ways)
+    amb = [nc([a], [a, b]), nc([a, b], [a]), rep(a, 1, 2, False), grp(seq([a, rep(b, 0, 1, False)]), False), nc([a], [b, c], [a, b]), grp(seq([a, b, rep(c, 0, 1, False)]), False)]
+    for X in amb:
+        for (lo, hi) in ((2, 2), (3, 3), (2, 3), (2, None)):
+            for Y in (c, eol, a, nc([c], [b])):
+                out.append((seq([rep(X, lo, hi, False), Y]), '', ['a', 'b', 'c'], 5))
+                out.append((seq([bol, rep(X, lo, hi, False), Y]), '', ['a', 'b', 'c'], 5))
+            out.append((seq([bol, rep(X, lo, hi, False)]), '', ['a', 'b', 'c'], 5))
+            out.append((grp(seq([bol, rep(X, lo, hi, False)]), True), '', ['a', 'b', 'c'], 5))
+    # a repetition whose body ends in an optional group, before a term that makes it give repetitions back
+    for X in (N('dot'), cls(['a', 'b']), a):
+        for G in (g(b, c), g(b), g(b, c, lit('d'))):
+            for (lo, hi) in ((0, None), (1, None), (0, 2)):
+                for Y in (c, b):
+                    out.append((seq([rep(grp(seq([X, rep(G, 0, 1, False)]), False), lo, hi, False), Y]), '', ['a', 'b', 'c', 'd'] if has_lit(G, 'd') else ['a', 'b', 'c'], 4 if has_lit(G, 'd') else 5))
+    # groups under a counted or reluctant quantifier, different groups taking part in different repetitions
+    for body in (nc([g(a)], [g(b)]), nc([g(a)], [b]), g(nc([a], [b])), grp(seq([g(nc([a], [b])), c]), False), grp(seq([xx, g(nc([a], [b])), c]), False)):
+        for (lo, hi, lazy) in ((2, 2, True), (2, 2, False), (2, None, True), (1, None, False), (1, None, True), (2, 3, True), (0, None, False)):
+            for tail in ([c], [], [lit('d')]):
+                al = ['a', 'b', 'c', 'x'] if has_lit(body, 'x') else ['a', 'b', 'c', 'd'] if tail and tail[0].a[0] == 'd' else ['a', 'b', 'c']
+                out.append((seq([rep(body, lo, hi, lazy)] + list(tail)), '', al, 4 if len(al) > 3 else 5))
+    # a counted quantifier over a term that matches the empty string anywhere: the regex matches the empty string
+    for X in (g(rep(a, 0, 1, False)), grp(seq([rep(a, 0, None, False)]), False), g(nc([a], [])), rep(a, 0, 1, False)):
+        for (lo, hi) in ((2, 2), (2, 3), (2, None), (3, 3)):
+            out.append((rep(X, lo, hi, False), '', ['a', 'b'], 3))
+            out.append((seq([b, rep(X, lo, hi, False)]), '', ['a', 'b'], 3))
     # r{0}, r{0,0}: the group still counts
     out.append((seq([rep(g(a), 0, 0, False), g(b)]), '', ['a', 'b', 'c'], 4))
     out.append((seq([g(a), rep(g(b), 0, 0, False), g(c)]), '', ['a', 'b', 'c'], 4))
@@ -732,7 +949,22 @@ def check_case(c, r, pids):
                 fails.append(('C04', 'analyze entries vs the spans of replace_all', repr(exp_ents), repr([(x[0], x[1]) for x in ents])))
             c.ents = ents
     c.spans = spans
-    c.pymatches = list(pre.finditer(inp)) if (not fragile and spans == exp_spans and not quantified_caps(node)) else None
+    c.pymatches = None
+    if not fragile and spans == exp_spans:
+        pms = list(pre.finditer(inp))
+        if quantified_caps(node):
+            # a group under a quantifier: only the matches found on the first path tried, with nothing given back
+            number_groups(node)
+            rm = RefMatch(node, flags, inp)
+            sel = []
+            for pm in pms:
+                fp = rm.first_path(pm.start())
+                ok = fp is not None and fp[0] == pm.end() and all(fp[1].get(g) == pm.group(g) for g in range(1, ncaps(node) + 1))
+                sel.append((pm, fp[2]) if ok else None)
+            c.pymatches = sel
+            c.first_path = sum(1 for x in sel if x is not None)
+        elif not quantified_caps(node):
+            c.pymatches = [(pm, True) for pm in pms]
     return fails
 
 
@@ -755,13 +987,15 @@ def check_groups(c, r_groups):
         caps = mtxt.split('\x03')
         if len(caps) != k:
             continue
-        if pym is not None:
-            # C03 against the oracle (patterns without a quantified group): $N is the text of the group's last participation,
+        if pym is not None and pym[mi] is not None:
+            # C03 against the oracle (patterns without a quantified group; with one: matches found with nothing given back): $N is the text of the group's last participation,
             # empty if it did not participate; analyze lists exactly the groups that participated
             for g in range(1, k + 1):
-                want = pym[mi].group(g)
+                want = pym[mi][0].group(g)
                 if caps[g - 1] != (want or ''):
                     fails.append(('C03', 'text of $%d' % g, repr(want or ''), repr(caps[g - 1])))
+                if not pym[mi][1]:
+                    continue      # something that had matched was abandoned on the way: whether analyze lists an emptied group is recorded finding 5
                 got = e[2].get(g)
                 if want is None and got is not None:
                     fails.append(('C03', 'analyze lists group %d, which did not participate' % g, 'no Group entry', repr(got)))
@@ -929,14 +1163,52 @@ def search(pids, repo, tier='quick', seed=0, log=None):
             if r is not None and r.get('is_match') != str(exp).lower():
                 fails.append({'pid': 'C17', 'pids': ['C17', 'C12'], 'what': '^ and $ are anchors under XPath and ordinary characters under XSD', 'dialect': dl, 'pattern': pat,
                               'flags': '', 'input': inp, 'expected': 'is_match ' + str(exp).lower(), 'actual': 'compile %s is_match %s' % (r.get('compile'), r.get('is_match'))})
-        # C19: a back-reference to a group that the selected path did not go through matches the empty string
-        explicit = [('(?:(a)b|a)\\1', 'a', True), ('^(?:a(b)|ab)\\1$', 'ab', True), ('^(?:(x)y|x)\\1-$', 'x-', True), ('^(?:(a)b|a)\\1c$', 'ac', True),
-                    ('^(?:(a)b|a)\\1c$', 'aac', False), ('^(a)?b\\1$', 'b', True), ('^(a)?b\\1$', 'aba', True), ('^(a)?b\\1$', 'ab', False)]
-        eres = probe.run([('xpath', '', pat, inp, 'X') for (pat, inp, exp) in explicit])
-        for (pat, inp, exp), r in zip(explicit, eres):
-            if r is not None and r.get('is_match') != str(exp).lower():
-                fails.append({'pid': 'C19', 'pids': ['C19', 'C03', 'C01'], 'what': 'back-reference to a group outside the selected path', 'dialect': 'xpath', 'pattern': pat.replace('\\\\', '\\'),
-                              'flags': '', 'input': inp, 'expected': 'is_match ' + str(exp).lower(), 'actual': 'compile %s is_match %s' % (r.get('compile'), r.get('is_match'))})
+        # explicit cases with a known answer: (dialect, pattern, flags, input, is_match, properties, what)
+        X19 = ['C19', 'C03', 'C01']
+        explicit = [('xpath', pat, '', inp, exp, X19, 'back-reference to a group outside the selected path') for (pat, inp, exp) in
+                    [('(?:(a)b|a)\\1', 'a', True), ('^(?:a(b)|ab)\\1$', 'ab', True), ('^(?:(x)y|x)\\1-$', 'x-', True), ('^(?:(a)b|a)\\1c$', 'ac', True),
+                     ('^(?:(a)b|a)\\1c$', 'aac', False), ('^(a)?b\\1$', 'b', True), ('^(a)?b\\1$', 'aba', True), ('^(a)?b\\1$', 'ab', False)]]
+        # a quantified back-reference: to a group that may be unset (then every copy is empty: the repetition must still end),
+        # and to a group that may hold the empty string or not (the quantifier counts copies of what was captured)
+        XQ = ['C19', 'C06', 'C01', 'C08']
+        for (pat, inp, exp) in [('(?:(a)|b)\\1*?c', 'bdbc', True), ('(?:(a)|b)\\1*?c', 'bdc', False), ('((a)|b)\\2+?(?:c|d)', 'bbe', False), ('(?:(a)|b)\\1{2,}?c', 'bc', True),
+                                ('(?:(a)|b)\\1*c', 'bdbc', True), ('(?:(a)|b)\\1+c', 'bc', True), ('(?:(a)|b)\\1+?c', 'aac', True), ('(?:(a)|b)\\1*?c', 'aaac', True),
+                                ('^(a?)\\1?b$', 'ab', True), ('^(a?)\\1?b$', 'aab', True), ('^(a?)\\1?b$', 'b', True), ('^(a?)\\1{2,3}b$', 'aab', False), ('^(a?)\\1{2,3}b$', 'aaab', True),
+                                ('^(a*)\\1?b$', 'aab', True), ('^(a|)\\1*b$', 'ab', True), ('^(a|)\\1+b$', 'aab', True), ('x(a?)\\1?b', 'xab', True), ('^(a?)\\1*b$', 'ab', True)]:
+            explicit.append(('xpath', pat, '', inp, exp, XQ, 'quantified back-reference'))
+        # flag i: a category escape is not closed under case, a literal after it is still compared case-blind
+        for (pat, fl, inp, exp) in [('\\p{Lu}+x', 'i', 'ABX', True), ('\\p{Lu}+x', 'i', 'ABx', True), ('\\p{Ll}*A', 'i', 'aba', True), ('[\\p{Lu}]+x', 'i', 'ABX', True),
+                                    ('[^\\p{Ll}]+x', 'i', 'ABX', True), ('\\p{Lu}+x', '', 'ABX', False), ('\\p{Lu}+\\p{Ll}', 'i', 'AB', False), ('[A-Z-[\\p{Ll}]]+x', 'i', 'ABX', True)]:
+            explicit.append(('xpath', pat, fl, inp, exp, ['C11', 'C08', 'C01', 'C10'], 'flag i next to a category escape'))
+        # flags q and i together: the literal is compared case-blind
+        for (pat, fl, inp, exp) in [('Hello', 'qi', 'say hello', True), ('Hello', 'qi', 'HELLO', True), ('A+', 'qi', 'xa+', True), ('A.', 'iq', 'a.', True), ('A.', 'qi', 'ab', False),
+                                    ('Hello', 'q', 'say hello', False), ('hello', 'qi', 'HeLLo', True)]:
+            explicit.append(('xpath', pat, fl, inp, exp, ['C13', 'C11', 'C01'], 'flags q and i'))
+        # flag s in both dialects
+        for dl in ('xpath', 'xsd'):
+            for (pat, fl, inp, exp) in [('a.b', 's', 'a\nb', True), ('a.b', '', 'a\nb', False), ('a(.)b', 's', 'a\rb', True), ('a.b', 'si', 'A\nB', True), ('a.+b', 's', 'a\n\nb', True)]:
+                explicit.append((dl, pat, fl, inp, exp, ['C17', 'C12'], 'flag s (dot matches every character) in both dialects'))
+        # character class syntax: hyphens and escapes as members, as range ends, before a subtraction
+        clsx = [('[a--[b]]', 'a-'), ('[ab--[b]]', 'a-'), ('[a-]', 'a-'), ('[-a]', 'a-'), ('[\\-+]', '-+'), ('[+\\-]', '-+'), ('[\\*-0]', '*+,-./0'), ('[\\--0]', '-./0'),
+                ('[a\\-z]', 'a-z'), ('[\\^a]', '^a'), ('[a\\]]', 'a]'), ('[\\[a]', '[a'), ('[\\\\-a]', '\\]^_`a'), ('[+-\\-]', '+,-'), ('[\\.-0]', './0'), ('[a-c-[b]]', 'ac'),
+                ('[^-a]', None), ('[\\-]', '-'), ('[a\\-]', 'a-'), ('[\\-a-c]', '-abc'), ('[\\n-\\r]', '\n\x0b\x0c\r')]
+        probe_chars = list('ab-+*,./0z^]_[`\\c') + ['\n', '\r', '\x0b', ' ']
+        for (pat, members) in clsx:
+            for ch in probe_chars:
+                exp = (ch in members) if members is not None else (ch not in '-a')
+                explicit.append(('xpath', '^' + pat + '$', '', ch, exp, ['C09', 'C07', 'C01'], 'members of the class expression ' + pat))
+        eres = probe.run([(dl, fl, pat, inp, 'X') for (dl, pat, fl, inp, exp, ps, what) in explicit])
+        for (dl, pat, fl, inp, exp, ps, what), r in zip(explicit, eres):
+            if r is None:
+                continue
+            pat1 = pat
+            if r.get('TIMEOUT') or r.get('PANIC'):
+                pid0 = 'C06' if r.get('TIMEOUT') else 'C05'
+                fails.append({'pid': pid0, 'pids': sorted(set([pid0] + ps)), 'what': what + ': the call ' + ('did not return within the time limit' if r.get('TIMEOUT') else 'panicked'), 'dialect': dl, 'pattern': pat1,
+                              'flags': fl, 'input': inp, 'expected': 'is_match ' + str(exp).lower(), 'actual': 'no result'})
+            elif r.get('is_match') != str(exp).lower():
+                fails.append({'pid': ps[0], 'pids': ps, 'what': what, 'dialect': dl, 'pattern': pat1,
+                              'flags': fl, 'input': inp, 'expected': 'is_match ' + str(exp).lower(), 'actual': 'compile %s is_match %s' % (r.get('compile'), r.get('is_match'))})
         # C07: malformed patterns are rejected with Error::Syntax (each one leaves the grammar in one identifiable way)
         malformed = ['a{3,2}', '(a*){3,2}', '(a|){2,1}', '^{2,1}a', 'a${3,1}', '(', ')', 'a)', '(a', '[', '[a', 'a]', '[]', '[b-a]', 'a**', '*a', '+', '?a',
                      'a|*', '(*a)', 'a{2', 'a{,2}', 'a{x}', '\\q', '\\', 'a\\', '\\1', '(a)\\2', '(a\\1)', '[\\1]', '\\p{Foo}', '\\p{IsFoo}', '\\p{Lu',
@@ -948,10 +1220,20 @@ def search(pids, repo, tier='quick', seed=0, log=None):
                 fails.append({'pid': 'C05', 'pids': ['C05', 'C07'], 'what': 'compiling a malformed pattern panics', 'dialect': 'xpath', 'pattern': pat,
                               'flags': '', 'input': 'a', 'expected': 'ERR:Syntax', 'actual': 'panic'})
             elif r is not None and not r.get('compile', '').startswith('ERR:Syntax'):
-                fails.append({'pid': 'C07', 'pids': ['C07'], 'what': 'a malformed pattern is not rejected with Error::Syntax', 'dialect': 'xpath', 'pattern': pat,
+                fails.append({'pid': 'C07', 'pids': ['C07'] + (['C10'] if ('\\p' in pat or '\\P' in pat) else []), 'what': 'a malformed pattern is not rejected with Error::Syntax', 'dialect': 'xpath', 'pattern': pat,
                               'flags': '', 'input': 'a', 'expected': 'ERR:Syntax', 'actual': r.get('compile', '?')})
-        for fl in ['z', 'ii z', 'a', 'mz', ';z', 'sX']:
-            pass
+        # C10: every one- and two-letter name after \\p / \\P: accepted exactly if it is one of the 36 category names of XSD (Cs excluded)
+        xsd_names = set('L Lu Ll Lt Lm Lo M Mn Mc Me N Nd Nl No P Pc Pd Ps Pe Pi Pf Po Z Zs Zl Zp S Sm Sc Sk So C Cc Cf Co Cn'.split())
+        names = [chr(u) for u in range(65, 91)] + [chr(u) + chr(v) for u in range(65, 91) for v in list(range(97, 123)) + list(range(65, 91))]
+        ncases = [('\\p{%s}' % nm, nm) for nm in names] + [('[\\P{%s}]' % nm, nm) for nm in names if nm[0] in 'LC']
+        nres = probe.run([('xpath', '', pat, 'a', 'X') for (pat, nm) in ncases])
+        for (pat, nm), r in zip(ncases, nres):
+            if r is None:
+                continue
+            okc = r.get('compile') == 'OK'
+            if okc != (nm in xsd_names) or r.get('PANIC'):
+                fails.append({'pid': 'C10', 'pids': ['C10', 'C07'], 'what': 'category name %s: accepted exactly if it is a category of XSD' % nm, 'dialect': 'xpath', 'pattern': pat,
+                              'flags': '', 'input': 'a', 'expected': 'compiles' if nm in xsd_names else 'ERR:Syntax', 'actual': str(r.get('compile', 'panic'))})
         fres = probe.run([('xpath', fl, 'a', 'a', 'X') for fl in ['z', 'a', 'mz', 'X', 'i z']])
         for fl, r in zip(['z', 'a', 'mz', 'X', 'i z'], fres):
             if r is not None and not r.get('compile', '').startswith('ERR:InvalidFlags'):
@@ -1019,8 +1301,10 @@ def search(pids, repo, tier='quick', seed=0, log=None):
                 i += 1
             return out
         ten = ''.join('(%s)' % ch for ch in 'abcdefghij')
-        rpats = [('(a)(b)?', 2, 'xabyaz'), ('(a){0}(b)', 2, 'xbx'), (ten, 10, '-abcdefghij-'), ('(a)(b)(c)(d)(e)(f)(g)(h)(i){0}(j)', 10, '-abcdefghj-'), ('a', 0, 'banana'), ('(a)|b', 1, 'abc'), ('(a)(b)', 2, 'xyz'), ('a', 0, ''), ('(a)', 1, 'xyz')]
-        repls = ['$1', '[$1|$2]', '$2', '$10', '$11', '$0', '\\$', '\\\\', 'x$', '\\x', '$a', '$1$1', '<$0>$3', '$9x', '$01']
+        rpats = [('(a)(b)?', 2, 'xabyaz'), ('(a){0}(b)', 2, 'xbx'), (ten, 10, '-abcdefghij-'), ('(a)(b)(c)(d)(e)(f)(g)(h)(i){0}(j)', 10, '-abcdefghj-'), ('a', 0, 'banana'), ('(a)|b', 1, 'abc'), ('(a)(b)', 2, 'xyz'), ('a', 0, ''), ('(a)', 1, 'xyz'),
+                 (''.join('(%s)' % ch for ch in 'abcdefghijkl'), 12, '-abcdefghijkl-')]
+        repls = ['$1', '[$1|$2]', '$2', '$10', '$11', '$0', '\\$', '\\\\', 'x$', '\\x', '$a', '$1$1', '<$0>$3', '$9x', '$01',
+                 '<$12' + '0' * 20 + '>', '$1' + '0' * 25, '$' + '9' * 30, '$12' + '3' * 19, '$18446744073709551616', '$18446744073709551617x']
         rcases = [(pat, ng, inp, rp) for (pat, ng, inp) in rpats for rp in repls]
         rres = probe.run([('xpath', '', pat, inp, rp) for (pat, ng, inp, rp) in rcases])
         for (pat, ng, inp, rp), r in zip(rcases, rres):
@@ -1066,7 +1350,8 @@ def search(pids, repo, tier='quick', seed=0, log=None):
         gres = probe.run([(c.dialect, c.flags, c.xpat, c.inp, L + '\x03'.join('$%d' % g for g in range(1, ncaps(c.node) + 1)) + R) for c in todo_groups])
         for c, r in zip(todo_groups, gres):
             for (pid, what, exp, act) in check_groups(c, r):
-                fails.append({'pid': pid, 'pids': [pid], 'what': what, 'dialect': c.dialect, 'pattern': c.xpat, 'flags': c.flags, 'input': c.inp,
+                gp = {pid} | ({'C15'} if what.startswith('text of $') else set()) | ({'C19'} if has(c.node, 'bref') else set())
+                fails.append({'pid': pid, 'pids': sorted(gp), 'what': what, 'dialect': c.dialect, 'pattern': c.xpat, 'flags': c.flags, 'input': c.inp,
                               'expected': exp, 'actual': act})
         # equivalent spellings: compare the engine with itself
         pc = []
@@ -1087,7 +1372,7 @@ def search(pids, repo, tier='quick', seed=0, log=None):
                                   'expected': 'same as for the spelling %s: %s' % (to_x(n2), bb.get(op)), 'actual': str(a.get(op))})
                     break
         explored = {'patterns': len(pats), 'cases': len(cases), 'cases_compared_with_oracle': sum(1 for c in cases if getattr(c, 'fragile', None) is False),
-                    'cases_on_shapes_of_recorded_findings_not_compared': sum(1 for c in cases if getattr(c, 'fragile', None) is True), 'group_cases': len(todo_groups), 'spelling_pairs': len(pairs), 'spelling_cases': len(pc),
+                    'cases_on_shapes_of_recorded_findings_not_compared': sum(1 for c in cases if getattr(c, 'fragile', None) is True), 'group_cases': len(todo_groups), 'matches_with_a_quantified_group_compared_with_oracle_groups': sum(getattr(c, 'first_path', 0) for c in cases), 'spelling_pairs': len(pairs), 'spelling_cases': len(pc),
                     'bounds': b, 'seed': seed,
                     'oracle': "Python re on the common fragment; metamorphic relations between the APIs and between two spellings"}
         return {'failures': fails, 'explored': explored}
@@ -1118,6 +1403,8 @@ def failure_pids(f, node):
     out = {base}
     if base in ('C01', 'C02'):
         out |= {'C08', 'C20'} | feature_pids(node, f['flags'])
+        if nullable(node):
+            out |= {'C16'}      # whether the regex matches the empty string is what the guard of replace / tokenize / analyze asks
         if base == 'C02':
             out |= {'C04'}      # the pieces between consecutive matches are the tokens / the analyze entries
     if base == 'C04':
